@@ -8,3 +8,5 @@ import Signac.Extracted
 import Signac.Properties.C01
 import Signac.Properties.C10
 import Signac.Properties.C18
+import Signac.Properties.C19
+import Signac.Properties.C20
